@@ -420,11 +420,14 @@ public:
     }
     // Check current block
     if (!head || offset + alignedSize > SourceHeap::AllocSize) {
-      size_t remaining = SourceHeap::AllocSize - offset;
+      size_t remaining = head ? SourceHeap::AllocSize - offset : 0;
       assert((remaining & (sizeof(double) - 1)) ==
              0); // should still be aligned
       if (!remaining) {
         refill();
+        if (alignedSize > SourceHeap::AllocSize - offset) {
+          alignedSize = SourceHeap::AllocSize - offset;
+        }
       } else {
         alignedSize = remaining;
       }
